@@ -1,8 +1,11 @@
 #!/usr/bin/env python3
-"""prints a markdown table of what the evidence files currently say (used to refresh DESIGN.md section 9.2)"""
-import json, glob, os
+"""evidence_table.py [quick|thorough] -- prints a markdown table of what the evidence files currently say (DESIGN.md sections 9.2 / 9.6);
+with a tier name the per-tier copies under evidence/<tier>/ are read"""
+import json, glob, os, sys
+SUB = sys.argv[1] if len(sys.argv) > 1 else ''
+
 rows = []
-for f in sorted(glob.glob(os.path.join(os.path.dirname(__file__), '..', 'evidence', 'C*.json'))):
+for f in sorted(glob.glob(os.path.join(os.path.dirname(os.path.abspath(__file__)), '..', 'evidence', SUB, 'C*.json'))):
     d = json.load(open(f)); c = d['coverage']
     runs = c.get('runs', [])
     bounds = sorted(set(str(r.get('dev_bound')) for r in runs if r.get('dev_bound') is not None))
